@@ -15,7 +15,7 @@ BASELINE = "C06"
 REQUIRED_COUNTERS = ["scans", "verdicts_judged", "must_report_regions", "documents_in_agreement"]
 ASSUMPTIONS = [
     "oracles are transcriptions of newdocs/src/plugins/rule_mdXXX.md; where a page is silent the oracle abstains (counted)",
-    "rules judged: md001 md004 md009 md010 md012 md013 md019 md023 md025 md026 md031 md035 md040 md041 md042 md045 md046 md047 md048",
+    "rules judged: md001 md003 md004 md009 md010 md012 md013 md019 md022 md023 md024 md025 md026 md031 md032 md035 md040 md041 md042 md045 md046 md047 md048",
 ]
 N_Z1 = 5097
 N_Z3 = 14000
@@ -39,7 +39,7 @@ def plan(tier, seed, complete=False):
         "items": [f"R:{i}" for i in idx],
         "zones": {"corpus": {"universe": N_Z1}, "rule-trigger documents (Z7)": {"universe": N_Z7}, "calm trees (every second one sprayed with long lines / trailing spaces / tabs / blank runs)": {"universe": N_Z3}, "run": {"documents": len(idx)}},
         "exhaustive": False,
-        "rule": "document x rule (19 rules with a crisp documented condition) x that rule's documented configuration values (index-chosen subset per document); "
+        "rule": "document x rule (23 rules with a crisp documented condition) x that rule's documented configuration values (index-chosen subset per document); "
         "distinct = distinct (rule, configuration, document) triples in which the oracle demanded at least one report",
     }
 
